@@ -93,7 +93,7 @@ func kaExec(cfgs []kaConfig, one *kaCase, budget time.Duration) (*kaOut, error) 
 }
 
 func init() {
-	core.RegisterReplay("C20/e2e", func(data json.RawMessage) (bool, string, error) {
+	core.RegisterReplayThreads("C20/e2e", 1, func(data json.RawMessage) (bool, string, error) {
 		var cs kaCase
 		if err := json.Unmarshal(data, &cs); err != nil {
 			return false, "", err
